@@ -465,10 +465,11 @@ class FSCBoundedPolicyIteration(Learns):
         def value(fsc_action, fsc_state):
             return stochastic_fsc_policy_evaluation_exact(pomdp, torch.tensor(fsc_action), torch.tensor(fsc_state)).state_controller_value.numpy()
 
-        def assert_value_improvement(V, fsc_fn):
+        def improves_value(V, fsc_fn):
+            # The LP is only solved up to a tolerance: an improvement margin (epsilon) of that order is noise,
+            # and the resulting node can be slightly worse. We keep an update only if exact evaluation confirms it.
             nextV = value(*fsc_fn())
-            assert np.all(np.isclose(nextV, V) | (nextV > V))
-            assert np.any(nextV > V)
+            return np.all(np.isclose(nextV, V) | (nextV > V)) and np.any(nextV > V)
 
         V = value(fsc_action, fsc_state)
         converged = False
@@ -483,10 +484,9 @@ class FSCBoundedPolicyIteration(Learns):
             for n in range(ncontroller):
                 # We find the best possible improvement at each node using an LP; we have a few implementations above.
                 r = self.improve_node_fn(pomdp, V, n)
-                if r.improved:
+                if r.improved and improves_value(V, lambda: r.add_to_fsc(fsc_action, fsc_state, inplace=False)):
                     # When we can improve this node, we update the controller.
                     improved = True
-                    assert_value_improvement(V, lambda: r.add_to_fsc(fsc_action, fsc_state, inplace=False))
                     r.add_to_fsc(fsc_action, fsc_state, inplace=True)
                     V = value(fsc_action, fsc_state)
                 else:
